@@ -35,6 +35,7 @@ class Check:
     self.pid, self.tier, self.seed, self.level = pid, tier, seed, level
     self.t0 = time.time()
     self.obs = []
+    self._ext_cache = {}
     self.functions = {}      # name -> jaxpr equation count (or source lines for FX)
     self.bounds = {}
     self.assumptions = []
@@ -142,6 +143,37 @@ class Check:
                     f, indent=1, default=str)
         violations.append((o, path))
       else:
+        if not o.core and o.meta.get('extended_witness'):
+          # undecided EXTENDED obligation that opted in: the solver could not decide it (no claim is made), but a concrete witness search on the
+          # real code still runs, once per distinct (replayer, tag); a reproduced violation is reported, nothing else changes the verdict
+          rep = None
+          for pref, fn in self.replayers.items():
+            if o.name.startswith(pref):
+              rep = (pref, fn)
+              break
+          if rep is not None:
+            ckey = (rep[0], str(o.meta.get('extended_witness')))
+            if ckey not in self._ext_cache:
+              try:
+                o.model = o.model or {}
+                self._ext_cache[ckey] = rep[1](o)
+              except Exception as ex:
+                self._ext_cache[ckey] = (False, {'why': 'witness search crashed: %r' % (ex,)})
+              self.extra['extended_witness_searches'] = self.extra.get('extended_witness_searches', 0) + 1
+              reproduced, info = self._ext_cache[ckey]
+              if reproduced and info.get('note', '').find('solver model') < 0:
+                key = o.meta.get('finding_key') or o.name
+                kf = self._known(key)
+                if kf is not None:
+                  known_hits.append((key, kf))
+                  continue
+                os.makedirs(os.path.join(OUT, 'replays'), exist_ok=True)
+                path = os.path.join(OUT, 'replays', '%s-%s.json' % (self.pid, hashlib.md5(o.name.encode()).hexdigest()[:10]))
+                with open(path, 'w') as f:
+                  json.dump({'property': self.pid, 'obligation': o.name, 'solver_status': o.status, 'replay': info,
+                             'note': 'extended obligation the solver left undecided; the violation was found by the concrete witness search on the real code'}, f, indent=1, default=str)
+                violations.append((o, path))
+          continue
         if o.core:
           # undecided core obligation: look for a concrete witness on the real code (replayer with no model); a reproduced violation is reported
           rep = None
@@ -253,6 +285,9 @@ class Check:
 
 def main(pid, fn):
   import argparse
+  import faulthandler
+  import signal
+  faulthandler.register(signal.SIGUSR1, all_threads=False)     # kill -USR1 <pid> prints the Python stack (diagnosing slow traces)
   ap = argparse.ArgumentParser()
   ap.add_argument('--tier', default=os.environ.get('VERIF_TIER', 'quick'), choices=['quick', 'thorough'])
   ap.add_argument('--replay', default=None)
